@@ -6,6 +6,7 @@ modes (job['mode']):
   handle : variables as handles - bounds, update/value sequences, independent raw reads of the lens
   merit  : Operand.value/fun, fun_array, sum_squared, OptimizerGeneric._fun
   kern   : identity scale/inverse_scale methods called directly (batched kernel correspondence)
+  multi  : one problem over several optics (variables interleaved, pickups and solves per optic), per-optic observations
   opt    : optimise / undo sequences through the five front ends with every parent-process
            _fun call logged
 """
@@ -283,6 +284,90 @@ def run_opt(case):
     return out
 
 
+# ---------------------------------------------------------------- multi-optic problems
+def _solve_residual(o, solve):
+    if not solve:
+        return None
+    ya, _ = o.paraxial.marginal_ray()
+    return float(np.ravel(ya[solve[0]])[0]) - float(solve[1])
+
+
+def _pickup_residuals(o, lens):
+    out = []
+    for (src, attr, tgt, sc, off) in lens.get('pickups', []):
+        a = raw_read(o, {'type': attr, 'surf': src})
+        b = raw_read(o, {'type': attr, 'surf': tgt})
+        out.append(b - (sc * a + off))
+    return out
+
+
+def multi_snapshot(optics, lenses, p, coords):
+    return {'values': values_of(p),
+            'raw': [fnum(raw_read(optics[c['optic']], c)) for c in coords],
+            'pickup_res': [[fnum(r) for r in _pickup_residuals(o, l)] for o, l in zip(optics, lenses)],
+            'solve_res': [fnum(_solve_residual(o, l.get('solve'))) for o, l in zip(optics, lenses)],
+            'merit': fnum(p.sum_squared())}
+
+
+def run_multi(case):
+    """one problem spanning several optics; variables in the given (interleaved, repeating) order"""
+    np.random.seed(case.get('np_seed', 0))
+    lenses = case['lenses']
+    optics = []
+    for l in lenses:
+        o = build(l)
+        if l.get('solve'):
+            o.solves.add('marginal_ray_height', l['solve'][0], l['solve'][1])
+            o.update()
+        optics.append(o)
+    fe = case['frontend']
+    if fe.startswith('compensator'):
+        p = CompensatorOptimizer(method=fe.split(':')[1], tol=case.get('tol', 1e-5))
+        p._optimizer_map = {'generic': globals()['L_generic'], 'least_squares': globals()['L_least_squares']}
+    else:
+        p = om.OptimizationProblem()
+    for vs in case['vars']:
+        p.add_variable(optics[vs['optic']], vs['type'], min_val=vs.get('min'), max_val=vs.get('max'),
+                       apply_scaling=vs.get('scaled', True), **var_kwargs(vs))
+    for os_ in case['ops']:
+        data = dict(os_.get('data', {}))
+        data['optic'] = optics[os_['optic']]
+        p.add_operand(os_['type'], target=os_['target'], weight=os_['weight'], input_data=data)
+    coords = case['coords']
+    # how often does ONE call of update_optics() update each optic?  (instance-level counters, removed afterwards)
+    counts = [0] * len(optics)
+    for i, o in enumerate(optics):
+        def wrapped(i=i, orig=o.update):
+            counts[i] += 1
+            return orig()
+        o.update = wrapped
+    p.update_optics()
+    for o in optics:
+        del o.update
+    opt = None
+    if not fe.startswith('compensator'):
+        opt = globals()['L_' + fe](p)
+    out = {'bounds': bounds_of(p), 'update_counts': counts, 'start': multi_snapshot(optics, lenses, p, coords), 'steps': []}
+    for step in case['steps']:
+        rec = {'step': step, 'before': multi_snapshot(optics, lenses, p, coords)}
+        del LOG[:]
+        try:
+            if step == 'opt':
+                res = p.run() if opt is None else opt.optimize(**case.get('kwargs', {}))
+                rec['x'] = [fnum(v) for v in np.ravel(res.x)]
+                rec['fun'] = fnum(np.ravel(res.fun)[0])
+            elif step == 'undo':
+                opt.undo()
+            rec['stack'] = len(opt._x) if opt is not None else None
+        except Exception as e:      # noqa
+            rec['error'] = [type(e).__name__, str(e)[:160]]
+            rec['stack'] = len(opt._x) if opt is not None else None
+        rec['log'] = [[[float(v).hex() for v in x], float(f).hex()] for (x, f) in LOG]
+        rec['after'] = multi_snapshot(optics, lenses, p, coords)
+        out['steps'].append(rec)
+    return out
+
+
 def run_kern(case):
     """call one real method (scale / inverse_scale of a behaviour class) on a bare stub"""
     import importlib
@@ -296,7 +381,7 @@ def main():
     job = json.load(open(sys.argv[1]))
     _imports()
     _install_classes()
-    fn = {'handle': run_handle, 'merit': run_merit, 'opt': run_opt, 'kern': run_kern}[job['mode']]
+    fn = {'handle': run_handle, 'merit': run_merit, 'opt': run_opt, 'kern': run_kern, 'multi': run_multi}[job['mode']]
     res = []
     for case in job['cases']:
         try:
